@@ -133,10 +133,10 @@ def check_parser(ctx: Ctx, modname: str, fname: str, file: str) -> None:
                     if isinstance(x, (Obj, list)):
                         all_objects(x)
 
-        def parse(text: str, what: str) -> None:
+        def parse(text: str, what: str, by_keyword: bool = False) -> None:
             before = len(produced)
             try:
-                r = it.call(public, [text], {}, None, None)
+                r = it.call(public, [], {fn.params[0]: text}, None, None) if by_keyword else it.call(public, [text], {}, None, None)
             except PyRaise as err:
                 issues.append(f"{what}: parse({text!r}) raises {err.exc.cls}")
                 return
@@ -166,6 +166,11 @@ def check_parser(ctx: Ctx, modname: str, fname: str, file: str) -> None:
         parse("s2", "fresh string")
         vandalise(handed_out[-1])
         parse("s2", "fresh string again after editing")
+        parse("s3", "string passed by keyword (cache miss)", by_keyword=True)
+        parse("s3", "string passed by keyword (cache hit)", by_keyword=True)
+        vandalise(handed_out[-1])
+        parse("s3", "string passed positionally after keyword calls")
+        parse("s3", "string passed by keyword after an in-place edit", by_keyword=True)
         n = (maxsize if isinstance(maxsize, int) else 128) + 3
         if ctx.tier == "quick":
             n = min(n, 40) if not isinstance(maxsize, int) else n
